@@ -1255,6 +1255,8 @@ func runC01(r *Run, rng *Rng, replay string) {
 	c01colsPhase(r, rng, nCols)
 	c01cellTextPhase(r, rng, nCols/12)
 	c01putsPhase(r, rng, nCols/3)
+	c01colseqPhase(r, rng, nCols/3)
+	c01rowseqPhase(r, rng, nCols/4)
 	lap("witnesses+attribute histories+cols")
 	// 1. fixed boundary payloads through every string op
 	for i, s := range c01fixedPayloads() {
@@ -1438,6 +1440,10 @@ func c01replay(r *Run, path string) {
 			c01afterSave(r)
 		case "farcell":
 			c01farCell(r)
+		case "rowseq":
+			c01rowseq(r, rest)
+		case "colseq":
+			c01colseq(r, rest)
 		case "puts":
 			c01puts(r, rest)
 		case "setint":
